@@ -135,15 +135,32 @@ func serverArgRoute(v ssa.Value, msg ssa.Value) route {
 		}
 	}
 	if ms, ok := v.(*ssa.MakeSlice); ok {
-		// a buffer sized from a count field (possibly clamped)
-		for _, alt := range phiAlternatives(ms.Len, 4) {
-			a := stripConv(alt)
-			if cv, ok := a.(*ssa.Convert); ok {
-				a = cv.X
+		// a buffer sized from a count field (possibly clamped, possibly through a helper that computes the clamp)
+		var fromField func(x ssa.Value, depth int) (string, bool)
+		fromField = func(x ssa.Value, depth int) (string, bool) {
+			if depth > 4 {
+				return "", false
 			}
-			if f, ok := fieldOfValue(a, msg); ok {
-				return route{"field:" + f, "buffer"}
+			for _, alt := range phiAlternatives(x, 4) {
+				a := stripConv(alt)
+				if cv, ok := a.(*ssa.Convert); ok {
+					a = cv.X
+				}
+				if f, ok := fieldOfValue(a, msg); ok {
+					return f, true
+				}
+				if c, ok := a.(*ssa.Call); ok && staticCallee(&c.Call) != nil {
+					for _, arg := range c.Call.Args {
+						if f, ok := fromField(arg, depth+1); ok {
+							return f, true
+						}
+					}
+				}
 			}
+			return "", false
+		}
+		if f, ok := fromField(ms.Len, 0); ok {
+			return route{"field:" + f, "buffer"}
 		}
 	}
 	return route{"?" + valStr(v), ""}
